@@ -7,6 +7,7 @@ import (
 	"sort"
 	"strconv"
 	"strings"
+	"sync"
 	"time"
 
 	"golang.org/x/exp/rand"
@@ -19,6 +20,9 @@ func getSource() *rand.PCGSource {
 }
 
 var randSource = getSource()
+
+// randSourceLock 保护全局的 randSource，未设置 Seed 的vm会共用它
+var randSourceLock sync.Mutex
 
 func _roll32(src *rand.PCGSource, dicePoints int) int {
 	// 注: int的长度至少为32位，也可以高于此数，此处只是当作32位处理
@@ -72,6 +76,8 @@ func Roll(src *rand.PCGSource, dicePoints IntType, mod int) IntType {
 		return dicePoints
 	}
 	if src == nil {
+		randSourceLock.Lock()
+		defer randSourceLock.Unlock()
 		src = randSource
 	}
 
